@@ -609,7 +609,13 @@ func (e *Evaluator) evalBinaryExpr(expr *ExprBinary) (*Cell, error) {
 			memberVal.ParentObj = &left.Value
 			return NewCell(memberVal), nil
 		}
-		member.Value.Binding = &left.Value
+		if member.Value.Tag == ValueNativeFn {
+			// methods live in cells shared by every value of that type, so the
+			// receiver goes on a copy
+			bound := NewCell(member.Value)
+			bound.Value.Binding = &left.Value
+			return bound, nil
+		}
 
 		return member, nil
 	case LessThan, GreaterThan, EqualEqual, LessEqual, GreaterEqual, BangEqual:
